@@ -23,7 +23,7 @@ EXPLANATION = (
     "pushes, JobShop clock, Minesweeper counts, ...).")
 EXPLANATION += ' (R5) where step re-tests validity itself (Knapsack, TSP, CVRP, SlidingTilePuzzle, Minesweeper, Connector) that test equals the published mask clause by clause (borrowed from C04.R3b).'
 
-MIN_PAIRINGS = 50
+MIN_PAIRINGS = 40   # 54 on the pinned tree; one environment may have its tables in a form the syntactic pairing does not read (recorded as undecided)
 
 
 def check(tier: str) -> Result:
